@@ -12,6 +12,7 @@ Open Scope Z_scope.
 Record obs := mkObs {
   o_out : N;
   o_reads : N; o_zero : N; o_timeouts : N; o_eofs : N; o_writes : N; o_wbytes : N;
+  o_wtimeouts : N;       (* Write calls that ended in a timeout: the peer had stopped reading *)
   o_gor : Z; o_lis : Z; o_fds : Z
 }.
 
@@ -20,6 +21,7 @@ Record case := mkCase {
   k_scn : scn;
   k_segs : list bytes;
   k_term : term;
+  k_room : option N;             (* bytes the peer still reads before it stops reading (None: it keeps reading) *)
   k_n : N;                       (* connections requested *)
   k_obs : list obs;              (* connections run (the history stops at a handler that does not return) *)
   k_gc : Z * Z * Z;              (* goroutines, listeners, descriptors after a forced GC (0,0,0 if the history stopped) *)
@@ -27,7 +29,7 @@ Record case := mkCase {
                                     when a recovered panic left something behind *)
 }.
 
-Definition conn_of (k : case) : conn := mkConn (k_segs k) (k_term k) m0.
+Definition conn_of (k : case) : conn := mkConn5 (k_segs k) (k_term k) m0 (k_room k) false.
 Definition pred_of (k : case) : hres := handle (k_scn k) (fuel_for (conn_of k)) (conn_of k).
 
 Definition out_code (o : outcome) : N :=
@@ -45,7 +47,7 @@ Definition obs_agrees (k : case) (h : hres) (j : Z) (o : obs) : bool :=
   let m := c_m (h_conn h) in
   (o_out o =? out_code (h_out h))%N && finished (h_out h) &&
   (o_reads o =? m_reads m)%N && (o_zero o =? m_zero m)%N && (o_timeouts o =? m_timeouts m)%N &&
-  (o_eofs o =? m_eofs m)%N && (o_writes o =? m_writes m)%N &&
+  (o_eofs o =? m_eofs m)%N && (o_writes o =? m_writes m)%N && (o_wtimeouts o =? m_wtimeouts m)%N &&
   (if wbytes_modelled (sc_svc (k_scn k)) then (o_wbytes o =? m_wbytes m)%N else true) &&
   res_eqb (res_scale j (h_res h)) (o_gor o) (o_lis o) (o_fds o).
 
@@ -132,7 +134,7 @@ Definition violations (cs : list case) : list (N * N) :=
   flat_map (fun k => map (fun s => (k_id k, s)) (case_sigs k)) cs.
 
 (* tags: 1 datagram, 2 silent source, 4 history longer than one connection,
-   8 recovered panic predicted, 16 something held when Handle is over *)
+   8 recovered panic predicted, 16 something held when Handle is over, 32 peer stops reading *)
 Definition tags (cs : list case) : list (N * N) :=
   map (fun k =>
     let h := pred_of k in
@@ -141,4 +143,5 @@ Definition tags (cs : list case) : list (N * N) :=
      (match k_term k with TTimeout => 2 | TEof => 0 end) +
      (if (1 <? k_n k) then 4 else 0) +
      (match h_out h with Panicked => 8 | _ => 0 end) +
-     (if res_eqb (h_res h) 0 0 0 then 0 else 16))%N) cs.
+     (if res_eqb (h_res h) 0 0 0 then 0 else 16) +
+     (match k_room k with Some _ => 32 | None => 0 end))%N) cs.
